@@ -91,6 +91,60 @@ func c17FreeWorkload(spec RunSpec) c17Model {
 	return m
 }
 
+// c17FreeSharedWorkload: a list and an object held in globals are used by n cores through the global
+// (push, len, index read, member assignment): "accesses to globals from several cores".
+func c17FreeSharedWorkload(spec RunSpec) c17Model {
+	n := spec.P("n", 4)
+	iters := spec.P("iters", 30)
+	m := c17Model{lines: map[string]int{}}
+	var b strings.Builder
+	b.WriteString("let l = [0];\nlet o = new { n: 0, s: \"x\" };\n")
+	switch spec.P("shared", 1) {
+	case 1: // list: push / len / index
+		b.WriteString(`fn sw(id: int, n: int) {
+    let acc = 0;
+    for i in 0..n {
+        l.push(i);
+        acc = acc + l.len() + l[0];
+    }
+    println("sw", id, "done");
+}
+`)
+	case 2: // object: member write / read
+		b.WriteString(`fn sw(id: int, n: int) {
+    let acc = 0;
+    for i in 0..n {
+        o.n = o.n + 1;
+        o.s = "w";
+        acc = acc + o.n;
+    }
+    println("sw", id, "done");
+}
+`)
+	default: // readers only: nothing is modified after the spawns
+		b.WriteString(`fn sw(id: int, n: int) {
+    let acc = 0;
+    for i in 0..n {
+        acc = acc + l.len() + l[0] + o.n;
+        for v in l { acc = acc + v; }
+    }
+    println("sw", id, "done");
+}
+`)
+	}
+	b.WriteString("fn main() {\n")
+	for i := 0; i < n; i++ {
+		fmt.Fprintf(&b, "    spawn sw(%d, %d);\n", i, iters)
+		f := fmt.Sprintf("sw %d done", i)
+		m.lines[f]++
+		m.finals = append(m.finals, f)
+	}
+	b.WriteString("    println(\"main done\");\n}\n")
+	m.lines["main done"]++
+	m.prog = Single(b.String())
+	return m
+}
+
 // c17FreeFatalWorkload: one worker fails while the others (which loop until cancelled) are stopped by the
 // fatal interrupt: the termination paths of several cores run at the same time.
 func c17FreeFatalWorkload(spec RunSpec) Program {
@@ -117,6 +171,9 @@ func runC17FreeHere(t *testing.T, spec RunSpec) *Verdict {
 	const P = "C17"
 	v := &Verdict{}
 	m := c17FreeWorkload(spec)
+	if spec.P("shared", 0) > 0 {
+		m = c17FreeSharedWorkload(spec)
+	}
 	fatal := spec.P("fatal", 0) == 1
 	if fatal {
 		m = c17Model{prog: c17FreeFatalWorkload(spec), lines: map[string]int{}}
@@ -257,11 +314,39 @@ func execFree(specs []RunSpec, dir string, tag string) ([]*Verdict, error) {
 			v.Class, v.Msg, v.Sig = results[i].Class, results[i].Msg, results[i].Sig
 		}
 		if rs := races[i]; len(rs) > 0 && v.Class == "" {
-			v.fail("C17", "data-race", "race-free", rs[0], fmt.Sprintf("race detector report(s) in free mode: %v", dedupStr(rs)))
+			v.fail("C17", "data-race", "race-free", raceCulprit(specs[i], rs), fmt.Sprintf("race detector report(s) in free mode (%s): %v", specs[i].Workload, dedupStr(rs)))
 		}
 		out[i] = v
 	}
 	return out, nil
+}
+
+// raceCulprit names what raced. Which pair of accesses the detector reports first is up to the real
+// schedule, so for the workloads that mutate one compound value from several cores the culprit is the
+// *family* of functions involved (the value's own methods); a report that involves any function outside
+// that family keeps its own pair as the culprit.
+func raceCulprit(spec RunSpec, rs []string) string {
+	kind := spec.P("shared", 0)
+	if kind == 0 {
+		return rs[0]
+	}
+	name := []string{"", "shared-list", "shared-object", "shared-readers"}[kind]
+	fam := [][]string{nil,
+		{"runtime/value.ValueList.", "runtime/value.IndexValue"},
+		{"runtime.(*Core).runInstruction", "runtime/value.ValueObject."},
+		nil}[kind]
+	for _, pair := range rs {
+		for _, fn := range strings.Split(pair, " <-> ") {
+			in := false
+			for _, p := range fam {
+				in = in || strings.HasPrefix(fn, p)
+			}
+			if !in {
+				return name + ":" + pair
+			}
+		}
+	}
+	return name + ":in-place-mutation-through-the-global"
 }
 
 func lastLines(s string, n int) string {
